@@ -321,7 +321,7 @@ impl MultiState {
                 .unwrap_or_default();
 
             // Track the number of zombie lines that will be drawn by this call to draw.
-            adjust += line_count;
+            adjust = adjust.saturating_add(line_count);
 
             reap_indices.push(index);
         }
